@@ -54,22 +54,30 @@ type Timer struct {
 	C   *vchan.Chan[Time]
 	ent *rt.TimerEnt
 	f   func()
+	o   rt.Obj
+}
+
+func (t *Timer) obj() *rt.Obj {
+	if t.C != nil {
+		return t.C.Obj()
+	}
+	return &t.o
 }
 
 func (t *Timer) arm(r *rt.Run, d Duration) {
 	if t.f != nil {
 		f := t.f
-		t.ent = r.AddTimer(d, func(r *rt.Run) { r.SpawnFromClock(f) })
+		t.ent = r.AddTimer(d, t.obj(), func(r *rt.Run) { r.SpawnFromClock(f) })
 		return
 	}
 	c := t.C
-	t.ent = r.AddTimer(d, func(r *rt.Run) { c.TrySend(r.Now()) })
+	t.ent = r.AddTimer(d, t.obj(), func(r *rt.Run) { c.TrySend(r.NowRaw()) })
 }
 
 func NewTimer(d Duration) *Timer {
 	t := &Timer{C: vchan.Make[Time](1)}
 	if r := rt.Cur(); r != nil {
-		r.Point(rt.Op{Kind: "timer.new"})
+		r.Point(rt.Op{Kind: "timer.new", Obj: t.obj()})
 		t.arm(r, d)
 	}
 	return t
@@ -78,7 +86,7 @@ func NewTimer(d Duration) *Timer {
 func AfterFunc(d Duration, f func()) *Timer {
 	t := &Timer{f: f}
 	if r := rt.Cur(); r != nil {
-		r.Point(rt.Op{Kind: "timer.afterfunc"})
+		r.Point(rt.Op{Kind: "timer.afterfunc", Obj: t.obj()})
 		t.arm(r, d)
 	}
 	return t
@@ -91,7 +99,7 @@ func (t *Timer) Stop() bool {
 	if r == nil {
 		return t.ent.Disarm()
 	}
-	r.Point(rt.Op{Kind: "timer.stop"})
+	r.Point(rt.Op{Kind: "timer.stop", Obj: t.obj()})
 	return t.ent.Disarm()
 }
 
@@ -100,7 +108,7 @@ func (t *Timer) Reset(d Duration) bool {
 	if r == nil {
 		return t.ent.Disarm()
 	}
-	r.Point(rt.Op{Kind: "timer.reset"})
+	r.Point(rt.Op{Kind: "timer.reset", Obj: t.obj()})
 	was := t.ent.Disarm()
 	t.arm(r, d)
 	return was
@@ -114,8 +122,8 @@ type Ticker struct {
 }
 
 func (t *Ticker) arm(r *rt.Run) {
-	t.ent = r.AddTimer(t.period, func(r *rt.Run) {
-		t.C.TrySend(r.Now())
+	t.ent = r.AddTimer(t.period, t.C.Obj(), func(r *rt.Run) {
+		t.C.TrySend(r.NowRaw())
 		if !t.stop {
 			t.arm(r)
 		}
@@ -128,7 +136,7 @@ func NewTicker(d Duration) *Ticker {
 	}
 	t := &Ticker{C: vchan.Make[Time](1), period: d}
 	if r := rt.Cur(); r != nil {
-		r.Point(rt.Op{Kind: "ticker.new"})
+		r.Point(rt.Op{Kind: "ticker.new", Obj: t.C.Obj()})
 		t.arm(r)
 	}
 	return t
@@ -136,7 +144,7 @@ func NewTicker(d Duration) *Ticker {
 
 func (t *Ticker) Stop() {
 	if r := rt.Cur(); r != nil {
-		r.Point(rt.Op{Kind: "ticker.stop"})
+		r.Point(rt.Op{Kind: "ticker.stop", Obj: t.C.Obj()})
 	}
 	t.stop = true
 	t.ent.Disarm()
@@ -146,7 +154,7 @@ func (t *Ticker) Reset(d Duration) {
 	t.period = d
 	t.ent.Disarm()
 	if r := rt.Cur(); r != nil {
-		r.Point(rt.Op{Kind: "ticker.reset"})
+		r.Point(rt.Op{Kind: "ticker.reset", Obj: t.C.Obj()})
 		t.arm(r)
 	}
 }
@@ -160,6 +168,7 @@ func Sleep(d Duration) {
 		return
 	}
 	woken := false
-	r.AddTimer(d, func(*rt.Run) { woken = true })
-	r.Point(rt.Op{Kind: "sleep", Enabled: func() bool { return woken }})
+	o := &rt.Obj{}
+	r.AddTimer(d, o, func(*rt.Run) { woken = true })
+	r.Point(rt.Op{Kind: "sleep", Obj: o, Enabled: func() bool { return woken }})
 }
